@@ -171,6 +171,13 @@ QBody == AltE(<<Str(<<b>>), Str(<<a, b>>)>>)
 OptG(body, m, qm, cfg) == Merge([r |-> Rule(m, body), q |-> Rule(qm, QBody), s |-> Rule("", SBody)], OptTriv(cfg))
 FamOptSq  == {OptG(x, m, "_", cfg) : x \in SqBodies, m \in {""}, cfg \in {"none", "ws"}}
 FamOptSk  == {OptG(x, m, qm, cfg) : x \in SkBodies, m \in {"", "@"}, qm \in {"_", ""}, cfg \in {"none", "ws", "cm"}}
+\* ---- family "nl": C13 (failures on multi-line inputs: at offset 0, at the end, on an empty line,
+\*      after a trailing line break, inside predicates) ---------------------------------------------
+NlAtoms == {Str(<<a>>), Str(<<nl>>), Str(<<a, nl>>), AnyC, Eoi, Ref("s"), NotP(Str(<<nl>>)), AndP(Str(<<a>>))}
+NlT2 == NlAtoms \cup Un(NlAtoms) \cup Bin(NlAtoms, NlAtoms)
+NlT3 == {SeqE(<<x, Str(<<b>>)>>) : x \in NlT2} \cup {SeqE(<<Star(AltE(<<Str(<<a>>), Str(<<nl>>)>>)), x>>) : x \in NlT2}
+FamNl == {Merge([r |-> Rule(m, x), s |-> Rule("", SBody)], TrivRules(cfg)) : x \in NlT3, m \in {"", "@"}, cfg \in {"none", "ws"}}
+
 RECURSIVE RefsOf(_)
 RefsOf(e) ==
   CASE e.k = "ref" -> {e.n}
@@ -191,6 +198,7 @@ UsesSoi(e) ==
 Grammars ==
   CASE Family = "core2"   -> FamCore2
     [] Family = "core3"   -> FamCore3
+    [] Family = "nl"      -> FamNl
     [] Family = "optsq"   -> FamOptSq
     [] Family = "optsk"   -> FamOptSk
     [] Family = "optinl"  -> FamOptInl
@@ -210,6 +218,7 @@ Alpha ==
     [] Family = "tags" -> {a, b, sp}
     [] Family \in {"optsq", "optsk", "optinl"} -> {a, b, sp, A}
     [] Family = "opttrv" -> {a, b, sp}
+    [] Family = "nl" -> {a, b, nl, sp}
 
 Inputs == Strings(Alpha, MaxLen)
 StartsOf(inp) == IF Starts = "all" THEN 0..Len(inp) ELSE {0}
